@@ -996,14 +996,16 @@ impl<'a> Cx<'a> {
             "base_read" | "lstar_read" => {
                 let which = self.u("which") % 3;
                 let idx = if label == "lstar_read" { MSR_LSTAR } else { MSR_FS_BASE + which as u32 };
+                let konst = self.s["konst"].as_bool().unwrap_or(false);
                 let out = call(&label, false, || {
                     vec![match idx {
-                        MSR_LSTAR => LStar::read(),
-                        MSR_FS_BASE => FsBase::read(),
-                        MSR_GS_BASE => GsBase::read(),
-                        _ => KernelGsBase::read(),
-                    }
-                    .as_u64()]
+                        MSR_LSTAR => LStar::read().as_u64(),
+                        MSR_FS_BASE if konst => unsafe { <FS as Segment64>::BASE.read() },
+                        MSR_GS_BASE if konst => unsafe { <GS as Segment64>::BASE.read() },
+                        MSR_FS_BASE => FsBase::read().as_u64(),
+                        MSR_GS_BASE => GsBase::read().as_u64(),
+                        _ => KernelGsBase::read().as_u64(),
+                    }]
                 });
                 let p = self.prior(Reg::Msr(idx), &out)?;
                 self.class |= which << 4;
@@ -1013,10 +1015,19 @@ impl<'a> Cx<'a> {
                 let which = self.u("which") % 3;
                 let idx = if label == "lstar_write" { MSR_LSTAR } else { MSR_FS_BASE + which as u32 };
                 let a = canon(self.u("addr"));
+                let konst = self.s["konst"].as_bool().unwrap_or(false);
                 let out = call(&label, false, || {
                     let va = VirtAddr::new(a);
                     match idx {
                         MSR_LSTAR => LStar::write(va),
+                        MSR_FS_BASE if konst => unsafe {
+                            let mut m = <FS as Segment64>::BASE;
+                            m.write(a)
+                        },
+                        MSR_GS_BASE if konst => unsafe {
+                            let mut m = <GS as Segment64>::BASE;
+                            m.write(a)
+                        },
                         MSR_FS_BASE => FsBase::write(va),
                         MSR_GS_BASE => GsBase::write(va),
                         _ => KernelGsBase::write(va),
@@ -1723,8 +1734,9 @@ fn mk(rng: &mut Rng, op: &str, like: Option<&Value>) -> Value {
             };
             json!({"op": op, "idx": idx, "v": sanitize_msr(idx, v)})
         }
-        "base_read" => json!({"op": op, "which": sel_arg(rng, "which", 3)}),
-        "base_write" => json!({"op": op, "which": rng.below(3), "addr": addr(rng)}),
+        // "konst": go through the `Segment64::BASE` constant of FS / GS instead of the typed wrapper
+        "base_read" => json!({"op": op, "which": sel_arg(rng, "which", 3), "konst": rng.chance(35)}),
+        "base_write" => json!({"op": op, "which": rng.below(3), "addr": addr(rng), "konst": rng.chance(35)}),
         "lstar_write" => json!({"op": op, "addr": addr(rng)}),
         "star_write" => {
             let s = star_selectors(rng);
